@@ -62,6 +62,11 @@ DEVICE_LISTS = [
      {'name': 'B', 'is_input': True, 'is_output': True}],
     [{'name': 'X', 'is_input': False, 'is_output': True}, {'name': 'Y', 'is_input': True, 'is_output': False},
      {'name': 'X', 'is_input': True, 'is_output': False}],
+    # the shared names come in a different order (and number) on the input and on the output side
+    [{'name': 'S', 'is_input': True, 'is_output': False}, {'name': 'K', 'is_input': True, 'is_output': True},
+     {'name': 'S', 'is_input': False, 'is_output': True}],
+    [{'name': 'K', 'is_input': False, 'is_output': True}, {'name': 'S', 'is_input': True, 'is_output': True},
+     {'name': 'K', 'is_input': True, 'is_output': False}, {'name': 'S', 'is_input': True, 'is_output': False}],
 ]
 
 
@@ -221,7 +226,7 @@ BOUNDS = {
     'quick': 'the full finite grid, every point a solver-certified fork: backend name {absent, module, module/API} x api keyword '
              '{absent, given} x MIDO_BACKEND {unset, module, module/API} x use_environ x load x explicit port name x api= at the '
              'call x each MIDO_DEFAULT_* {unset, set, empty} x module with/without IOPort and get_devices x virtual/callback/'
-             'autoreset x 4 device lists (duplicates, split in/out entries) x the six open_*/get_*_names operations; set_backend '
+             'autoreset x 6 device lists (duplicates, split in/out entries, different input/output orders) x the six open_*/get_*_names operations; set_backend '
              'by name, name/API and Backend object',
     'thorough': 'same grid (it is finite and covered completely)',
 }
